@@ -415,6 +415,13 @@ func pinSpecApps(goal string, strs map[string]string) ([]string, bool) {
 		case "spec$decOverflow":
 			_, o := specDec64(val)
 			pins = append(pins, fmt.Sprintf("(assert (= %s %v))", appl, o))
+		case "spec$deltaNanos":
+			n, _ := specDec64(val)
+			d := int64(1<<63 - 1)
+			if n <= d/1000000000 {
+				d = n * 1000000000
+			}
+			pins = append(pins, fmt.Sprintf("(assert (= %s %s))", appl, bvLit(d, 64)))
 		default:
 			return nil, false
 		}
